@@ -13,7 +13,9 @@ abstract single steps over the expansion of the bulk step (`St.stepB`, `Spec/Sam
 Observers (`md5 eq clone ser reload`): the model goes through `md5sum` / `clone` / `eq` / `serde`
 (filling the digest cache as the code does), the abstract sample is left alone; `md5` also answers
 the digest (model: the cached or computed one; spec: MD5 of ksize and the sample's keys), `eq` the
-verdict (spec: the two samples have the same keys). -/
+verdict (spec: the digests of the two abstract samples agree — `==` is defined through the digest, and
+the digest's preimage has no separators, so {13} and {1,3} compare equal: that is C13's recorded
+finding (findings/C13.json), not a statement about the sample). -/
 open Driver Sample
 
 inductive Sk
@@ -161,7 +163,8 @@ def stepC01 (s : DSt) (ws : List String) : DSt × Resp :=
         some (t, src, stgt, "md5=" ++ Md5.hex d ++ " ", "md5=" ++ Md5.hex (Md5.digest 21 (keys stgt.m)) ++ " ")
       else if op == "eq" then
         (tgt.eqv src).map (fun (b, t, o) =>
-          (t, o, stgt, if b then "eq=1 " else "eq=0 ", if keys stgt.m == keys ssrc.m then "eq=1 " else "eq=0 "))
+          (t, o, stgt, if b then "eq=1 " else "eq=0 ",
+           if Md5.digest 21 (keys stgt.m) == Md5.digest 21 (keys ssrc.m) then "eq=1 " else "eq=0 "))
       else if op == "clone" then
         let (c, o) := src.cloned
         some (c, o, ssrc, "", "")
